@@ -59,8 +59,10 @@ func (l *znListener) WriteTo(p []byte, addr net.Addr) (int, error) {
 	l.mu.Unlock()
 	return len(p), nil
 }
-func (l *znListener) Close() error                       { close(l.closed); return nil }
-func (l *znListener) LocalAddr() net.Addr                { return &net.UDPAddr{IP: net.ParseIP("fe80::2"), Port: 9999, Zone: "eth0"} }
+func (l *znListener) Close() error { close(l.closed); return nil }
+func (l *znListener) LocalAddr() net.Addr {
+	return &net.UDPAddr{IP: net.ParseIP("fe80::2"), Port: 9999, Zone: "eth0"}
+}
 func (l *znListener) SetDeadline(t time.Time) error      { return nil }
 func (l *znListener) SetReadDeadline(t time.Time) error  { return nil }
 func (l *znListener) SetWriteDeadline(t time.Time) error { return nil }
@@ -195,9 +197,9 @@ func TestVerifZonedClients(t *testing.T) {
 		emit(map[string]any{"ev": "Reset", "scenario": "zoned-clients", "variant": variant})
 		mcur, ocur := 0, 0
 		nDg, nRp := 0, 0
-		liveOf := map[int]int{}   // client -> association believed live
-		portOf := map[int]int{}   // association -> source port
-		keyOfA := map[int]int{}   // association -> key
+		liveOf := map[int]int{} // client -> association believed live
+		portOf := map[int]int{} // association -> source port
+		keyOfA := map[int]int{} // association -> key
 		saltTok := map[string]int{}
 		handled := int64(0)
 		flushM := func(did, sid int) (stepAssoc int) {
@@ -287,7 +289,7 @@ func TestVerifZonedClients(t *testing.T) {
 			}
 			met.mu.Unlock()
 			now := time.Now()
-			emit(map[string]any{"ev": "SSend", "id": sid, "src": 1, "a": a, "sz": len(payload), "nw": 1, "fits": true, "t": ms(now)})
+			emit(map[string]any{"ev": "SSend", "id": sid, "src": 1, "a": a, "sz": len(payload), "rd": len(payload), "nw": 1, "fits": true, "t": ms(now)})
 			tgt.WriteToUDP(payload, &net.UDPAddr{IP: net.IPv4(127, 0, 0, 1), Port: portOf[a]})
 			znWait(3*time.Second, func() bool {
 				met.mu.Lock()
